@@ -18,10 +18,15 @@ use super::{LockGuard, RetryingLockCollection};
 fn contains_duplicates<L: Lockable>(data: L) -> bool {
 	let mut locks = Vec::new();
 	data.get_ptrs(&mut locks);
+	// a zero-sized entry (a collection without any locks) does not own its
+	// address, so it cannot be a duplicate of whatever else is found there
 	// cast to *const () so that the v-table pointers are not used for hashing
-	let locks = locks.into_iter().map(|l| (&raw const *l).cast::<()>());
+	let locks = locks
+		.into_iter()
+		.filter(|l| std::mem::size_of_val(*l) != 0)
+		.map(|l| (&raw const *l).cast::<()>());
 
-	let mut locks_set = HashSet::with_capacity(locks.len());
+	let mut locks_set = HashSet::new();
 	for lock in locks {
 		if !locks_set.insert(lock) {
 			return true;
